@@ -73,6 +73,52 @@ func (r *recorder) HandleInSync(ctx context.Context) {
 
 func (r *recorder) HandleMessage(ctx context.Context, p client.MessagePayload) {}
 
+// sendGate is a handler registered BEFORE the recorder: when armed for a txid it holds the first
+// "safe" state update for that txid inside its callback (a slow client) until released, so that what
+// the later handlers observe while an update is being sent can be scripted.
+type sendGate struct {
+	mu      sync.Mutex
+	armed   bool
+	txid    bitcoin.Hash32
+	reached chan struct{}
+	resume  chan struct{}
+}
+
+func (g *sendGate) arm(txid bitcoin.Hash32) (<-chan struct{}, chan<- struct{}) {
+	g.mu.Lock()
+	defer g.mu.Unlock()
+	g.armed, g.txid = true, txid
+	g.reached, g.resume = make(chan struct{}), make(chan struct{})
+	return g.reached, g.resume
+}
+
+func (g *sendGate) disarm() {
+	g.mu.Lock()
+	g.armed = false
+	g.mu.Unlock()
+}
+
+func (g *sendGate) HandleTx(ctx context.Context, tx *client.Tx) {}
+func (g *sendGate) HandleTxUpdate(ctx context.Context, u *client.TxUpdate) {
+	g.mu.Lock()
+	hit := g.armed && u.State.Safe && u.TxID.Equal(&g.txid)
+	if hit {
+		g.armed = false
+	}
+	reached, resume := g.reached, g.resume
+	g.mu.Unlock()
+	if hit {
+		close(reached)
+		select {
+		case <-resume:
+		case <-time.After(5 * time.Second):
+		}
+	}
+}
+func (g *sendGate) HandleHeaders(ctx context.Context, h *client.Headers)             {}
+func (g *sendGate) HandleInSync(ctx context.Context)                                  {}
+func (g *sendGate) HandleMessage(ctx context.Context, p client.MessagePayload)        {}
+
 func (r *recorder) take() []recEvent {
 	r.mu.Lock()
 	defer r.mu.Unlock()
@@ -83,9 +129,52 @@ func (r *recorder) take() []recEvent {
 
 // ---- scripted fetchers ----
 
-type scriptedFetcher struct{ tu *TxUniverse }
+type scriptedFetcher struct {
+	tu *TxUniverse
+	// one-shot pause point: the next GetOutputs asking for this outpoint signals `paused` and waits for `resume`
+	mu      sync.Mutex
+	armed   bool
+	pauseOn wire.OutPoint
+	paused  chan struct{}
+	resume  chan struct{}
+}
+
+func (f *scriptedFetcher) arm(op wire.OutPoint) (<-chan struct{}, chan<- struct{}) {
+	f.mu.Lock()
+	defer f.mu.Unlock()
+	f.armed, f.pauseOn = true, op
+	f.paused, f.resume = make(chan struct{}), make(chan struct{})
+	return f.paused, f.resume
+}
+
+func (f *scriptedFetcher) disarm() {
+	f.mu.Lock()
+	f.armed = false
+	f.mu.Unlock()
+}
 
 func (f *scriptedFetcher) GetOutputs(ctx context.Context, ops []wire.OutPoint) ([]bitcoin.UTXO, error) {
+	f.mu.Lock()
+	hit := false
+	if f.armed {
+		for _, op := range ops {
+			if op.Hash.Equal(&f.pauseOn.Hash) && op.Index == f.pauseOn.Index {
+				hit = true
+			}
+		}
+	}
+	if hit {
+		f.armed = false
+	}
+	paused, resume := f.paused, f.resume
+	f.mu.Unlock()
+	if hit {
+		close(paused)
+		select {
+		case <-resume:
+		case <-time.After(5 * time.Second):
+		}
+	}
 	r := make([]bitcoin.UTXO, 0, len(ops))
 	for _, op := range ops {
 		r = append(r, bitcoin.UTXO{Hash: op.Hash, Index: op.Index, Value: uint64(f.tu.OutPointID(op)),
@@ -159,6 +248,8 @@ type flowNode struct {
 	store    *VStore
 	node     *spynode.Node
 	rec      *recorder
+	gate     *sendGate
+	fetcher  *scriptedFetcher
 	bu       *Universe
 	tu       *TxUniverse
 	untrust  map[string]handlers.MessageHandler
@@ -187,8 +278,11 @@ func (f *flowNode) bootErr(startID int64) error {
 	if startID >= 0 {
 		cfg.StartHash = f.bu.HashOf(startID)
 	}
-	fetcher := &scriptedFetcher{f.tu}
+	fetcher := &scriptedFetcher{tu: f.tu}
+	f.fetcher = fetcher
 	f.node = spynode.NewNode(cfg, f.store, fetcher, fetcher)
+	f.gate = &sendGate{}
+	f.node.RegisterHandler(f.gate)
 	f.rec = &recorder{}
 	f.node.RegisterHandler(f.rec)
 	f.node.SubscribePushDatas(f.ctx, [][]byte{SubscribedData})
@@ -336,6 +430,57 @@ func runTxFlow(c *Case) ([]Obs, any) {
 				case <-time.After(2 * time.Second):
 				}
 				return append(Obs{OK, 1}, f.encEvents(f.rec.take(), false)...)
+			case "race_send": // txid conflicting-txid src : the delay check is in the middle of SENDING txid's safe
+				// update (the first handler is slow) when a conflicting tx arrives; the second handler must
+				// not see "safe" after "unsafe"
+				t, ctx2 := op.Int(0), ctx
+				cx, ok := tu.txs[op.Int(1)]
+				if !ok {
+					panic(harnessErr("undeclared tx"))
+				}
+				reachedCh, resume := f.gate.arm(tu.HashOf(t))
+				done := make(chan struct{})
+				go func() { f.node.VerifDelayCheck(ctx2); close(done) }()
+				reached := false
+				select {
+				case <-reachedCh:
+					reached = true
+				case <-done:
+				case <-time.After(2 * time.Second):
+				}
+				f.gate.disarm()
+				if !reached {
+					select {
+					case <-done:
+					case <-time.After(2 * time.Second):
+					}
+					return append(Obs{OK, 0}, f.encEvents(f.rec.take(), true)...)
+				}
+				cdone := make(chan error, 1)
+				go func() {
+					var err error
+					if op.Int(2) == 0 {
+						_, err = f.node.VerifHandlers()[wire.CmdTx].Handle(ctx2, cx)
+					} else {
+						f.ustate.SetVerified()
+						_, err = f.untrust[wire.CmdTx].Handle(ctx2, cx)
+					}
+					if err == nil {
+						err = f.node.VerifDrainTxs(ctx2)
+					}
+					cdone <- err
+				}()
+				select {
+				case <-cdone: // the conflict was processed and reported while the safe update was still being sent
+				case <-time.After(300 * time.Millisecond): // it waits for the sender (a lock): let the sender finish first
+				}
+				close(resume)
+				<-done
+				select {
+				case <-cdone:
+				case <-time.After(2 * time.Second):
+				}
+				return append(Obs{OK, 1}, f.encEvents(f.rec.take(), false)...)
 			case "inv": // txid trusted
 				h := tu.HashOf(op.Int(0))
 				inv := wire.NewMsgInv()
@@ -392,6 +537,79 @@ func runTxFlow(c *Case) ([]Obs, any) {
 					return Obs{ERR}
 				}
 				return append(Obs{OK}, f.encEvents(f.rec.take(), false)...)
+			case "race_block_tx": // id prev [txids] t src : the tx message for t (first seen in this block) is handled by
+				// the tx thread while ProcessBlock is in the middle of t (fetching the outputs it spends)
+				var txs []*wire.MsgTx
+				var hashes []bitcoin.Hash32
+				for _, t := range op.Ints(2) {
+					tx, ok := tu.txs[t]
+					if !ok {
+						panic(harnessErr("undeclared tx in block"))
+					}
+					txs = append(txs, tx)
+					hashes = append(hashes, *tx.TxHash())
+				}
+				root := merkleRoot(hashes)
+				hdr := bu.Header(op.Int(0), op.Int(1), 1400000000+op.Int(0)*600, &root)
+				blk := &txBlock{header: *hdr, txs: txs, valid: true}
+				cx, ok := tu.txs[op.Int(3)]
+				if !ok || len(cx.TxIn) == 0 {
+					panic(harnessErr("undeclared tx"))
+				}
+				ctx2 := ctx
+				pausedCh, resume := f.fetcher.arm(cx.TxIn[0].PreviousOutPoint)
+				bdone := make(chan error, 1)
+				go func() { bdone <- f.node.ProcessBlock(ctx2, blk) }()
+				reached := false
+				var berr error
+				bfin := false
+				select {
+				case <-pausedCh:
+					reached = true
+				case berr = <-bdone:
+					bfin = true
+				case <-time.After(2 * time.Second):
+				}
+				f.fetcher.disarm()
+				handle := func() error {
+					var err error
+					if op.Int(4) == 0 {
+						_, err = f.node.VerifHandlers()[wire.CmdTx].Handle(ctx2, cx)
+					} else {
+						f.ustate.SetVerified()
+						_, err = f.untrust[wire.CmdTx].Handle(ctx2, cx)
+					}
+					if err == nil {
+						err = f.node.VerifDrainTxs(ctx2)
+					}
+					return err
+				}
+				if !reached {
+					if !bfin {
+						berr = <-bdone
+					}
+					herr := handle()
+					return append(Obs{OK, 0, b2i(berr != nil), b2i(herr != nil)}, f.encEvents(f.rec.take(), false)...)
+				}
+				cdone := make(chan error, 1)
+				go func() { cdone <- handle() }()
+				var herr error
+				hfin := false
+				select {
+				case herr = <-cdone:
+					hfin = true
+				case <-time.After(300 * time.Millisecond): // it waits for the block (the tx repository's lock)
+				}
+				close(resume)
+				berr = <-bdone
+				if !hfin {
+					select {
+					case herr = <-cdone:
+					case <-time.After(3 * time.Second):
+						herr = errors.New("tx thread stuck")
+					}
+				}
+				return append(Obs{OK, 1, b2i(berr != nil), b2i(herr != nil)}, f.encEvents(f.rec.take(), false)...)
 			case "delaycheck":
 				f.node.VerifDelayCheck(ctx)
 				return append(Obs{OK}, f.encEvents(f.rec.take(), true)...)
